@@ -29,18 +29,18 @@ type dialResult struct {
 
 type replayer struct {
 	cfg    mconfig
-	tb     *tables
+	tb     *tablePair
 	ctx    context.Context
 	cancel context.CancelFunc
 	p      [2]*rpeer
 	ctl    *gate.Controller
-	keyOf  [2]string             // cache key peer s uses for the other peer
-	conn   [nC][2]*quic.Conn     // real object of model connection c at peer s
-	sess   [nC][2]int64          // goroutine of half-session c@s
-	task   [2]int64              // goroutine of the dial task of s
-	res    [2]chan dialResult    //
+	keyOf  [2]string              // cache key peer s uses for the other peer
+	conn   [nC][2]*quic.Conn      // real object of model connection c at peer s
+	sess   [nC][2]int64           // goroutine of half-session c@s
+	task   [2]int64               // goroutine of the dial task of s
+	res    [2]chan dialResult     //
 	parked map[string]*gate.Event // model step -> parked goroutine
-	pool   []*gate.Event         // arrived / done events not yet consumed
+	pool   []*gate.Event          // arrived / done events not yet consumed
 	log    []string
 }
 
@@ -119,16 +119,16 @@ func (r *replayer) known(goid int64) bool {
 	return false
 }
 
-func newReplayer(cfg mconfig, tb *tables) (*replayer, error) {
+func newReplayer(cfg mconfig, tb *tablePair) (*replayer, error) {
 	r := &replayer{cfg: cfg, tb: tb, parked: map[string]*gate.Event{}}
 	r.ctx, r.cancel = context.WithCancel(context.Background())
+	ea, eb, err := endpointPair(peerName[pA], peerName[pB], cfg.Order != "B<A")
+	if err != nil {
+		r.cancel()
+		return nil, err
+	}
+	r.p[pA], r.p[pB] = newRPeerOn(ea), newRPeerOn(eb)
 	for s := 0; s < 2; s++ {
-		p, err := newRPeer(peerName[s])
-		if err != nil {
-			r.close()
-			return nil, err
-		}
-		r.p[s] = p
 		r.res[s] = make(chan dialResult, 1)
 	}
 	r.ctl = gate.NewController()
@@ -399,13 +399,29 @@ func (r *replayer) settle(pre, post *mstate, e mstep) error {
 		}
 	}
 	// close watchers that become runnable
+	seenDir := map[string]string{}
+	for c := 0; c < nC; c++ {
+		for s := 0; s < 2; s++ {
+			if !(pre.Armed[c][s] == 1 && pre.Closed[c] != causeNone) && post.Armed[c][s] == 1 && post.Closed[c] != causeNone {
+				k := peerName[s] + dirAt(c, s)
+				if o, dup := seenDir[k]; dup {
+					return fmt.Errorf("watchers of %s and %s at %s become runnable in one step and have the same direction: the harness cannot tell them apart", o, connName[c], peerName[s])
+				}
+				seenDir[k] = connName[c]
+			}
+		}
+	}
 	for c := 0; c < nC; c++ {
 		for s := 0; s < 2; s++ {
 			was := pre.Armed[c][s] == 1 && pre.Closed[c] != causeNone
 			is := post.Armed[c][s] == 1 && post.Closed[c] != causeNone
 			if !was && is {
 				ev, err := r.await("close watcher of "+connName[c]+"@"+peerName[s], func(ev *gate.Event) bool {
-					return ev.Phase == "arrive" && ev.Func == "reap" && ev.Mode == "W" && r.peerOfOwner(ev.Owner) == s && !r.known(ev.Goid)
+					if ev.Phase != "arrive" || ev.Func != "reap" || ev.Mode != "W" || r.peerOfOwner(ev.Owner) != s || r.known(ev.Goid) {
+						return false
+					}
+					// the watcher's own log line tells which of this peer's connections it watches
+					return r.p[s].watch.get(ev.Goid) == map[string]string{"I": "Incoming", "O": "Outgoing"}[dirAt(c, s)]
 				})
 				if err != nil {
 					return err
@@ -452,7 +468,7 @@ func (r *replayer) run(trace []mstep) error {
 		if !ok {
 			return fmt.Errorf("step %d %s is not enabled in the model", i, e)
 		}
-		post, _, err := st.apply(e, r.tb)
+		post, _, err := st.apply(e, r.tb, r.cfg.Order)
 		if err != nil {
 			return err
 		}
@@ -497,7 +513,7 @@ func (r *replayer) run(trace []mstep) error {
 }
 
 // replayTrace replays one trace on fresh transports.
-func replayTrace(cfg mconfig, tb *tables, trace []mstep) error {
+func replayTrace(cfg mconfig, tb *tablePair, trace []mstep) error {
 	r, err := newReplayer(cfg, tb)
 	if err != nil {
 		return err
